@@ -49,6 +49,7 @@ func main() {
 	repo := flag.String("repo", "", "checkout")
 	out := flag.String("out", "", "output dir")
 	flag.BoolVar(&ops2, "ops2", false, "second operator set: drop an operand of && / ||, remove a !, swap the first two call arguments, swap two returned identifiers, < <-> >")
+	flag.BoolVar(&ops3, "ops3", false, "third operator set: returned error -> nil, `if c { return .. }` emptied, slice bounds and indexes off by one, += -> =, ++ <-> --, a value dropped from a case list, adjacent map-literal values swapped")
 	flag.Parse()
 	dirs := flag.Args()
 	os.MkdirAll(*out, 0o755)
@@ -70,7 +71,7 @@ func main() {
 			// count sites first, then re-parse per mutant (simple and safe)
 			n := countSites(src)
 			for site := 0; site < n; site++ {
-				for variant := 0; variant < 2; variant++ {
+				for variant := 0; variant < 3; variant++ {
 					fset := token.NewFileSet()
 					file, err := parser.ParseFile(fset, f, src, parser.ParseComments)
 					if err != nil {
@@ -95,7 +96,7 @@ func main() {
 	fmt.Println("mutants:", id)
 }
 
-var ops2 bool
+var ops2, ops3 bool
 
 type site struct {
 	node   ast.Node
@@ -105,6 +106,9 @@ type site struct {
 }
 
 func sites(file *ast.File) []site {
+	if ops3 {
+		return sites3(file)
+	}
 	if ops2 {
 		return sites2(file)
 	}
@@ -186,6 +190,9 @@ func exprString(fset *token.FileSet, n ast.Node) string {
 }
 
 func apply(fset *token.FileSet, file *ast.File, k, variant int) (meta, bool) {
+	if ops3 {
+		return apply3(fset, file, k, variant)
+	}
 	if ops2 {
 		return apply2(fset, file, k, variant)
 	}
@@ -413,5 +420,172 @@ func apply2(fset *token.FileSet, file *ast.File, k, variant int) (meta, bool) {
 		m.Op = "swap-results"
 	}
 	m.After = exprString(fset, s.node)
+	return m, true
+}
+
+
+// ---- third operator set ----
+
+func sites3(file *ast.File) []site {
+	var out []site
+	ast.Inspect(file, func(n ast.Node) bool {
+		switch t := n.(type) {
+		case *ast.ReturnStmt:
+			if k := len(t.Results); k >= 1 {
+				switch r := t.Results[k-1].(type) {
+				case *ast.Ident:
+					if r.Name == "err" {
+						out = append(out, site{node: t})
+					}
+				case *ast.CallExpr:
+					if sel, ok := r.Fun.(*ast.SelectorExpr); ok {
+						if x, ok := sel.X.(*ast.Ident); ok && (x.Name == "qerrors" || x.Name == "errors" || x.Name == "fmt" && sel.Sel.Name == "Errorf") {
+							out = append(out, site{node: t})
+						}
+					}
+				}
+			}
+		case *ast.IfStmt:
+			if t.Else == nil && len(t.Body.List) == 1 {
+				if _, ok := t.Body.List[0].(*ast.ReturnStmt); ok {
+					out = append(out, site{node: t})
+				}
+			}
+		case *ast.SliceExpr:
+			out = append(out, site{node: t})
+		case *ast.IndexExpr:
+			if _, lit := t.Index.(*ast.BasicLit); !lit {
+				out = append(out, site{node: t})
+			}
+		case *ast.AssignStmt:
+			if t.Tok == token.ADD_ASSIGN || t.Tok == token.SUB_ASSIGN {
+				out = append(out, site{node: t})
+			}
+		case *ast.IncDecStmt:
+			out = append(out, site{node: t})
+		case *ast.CaseClause:
+			if len(t.List) >= 2 {
+				out = append(out, site{node: t})
+			}
+		case *ast.CompositeLit:
+			nkv := 0
+			for _, e := range t.Elts {
+				if _, ok := e.(*ast.KeyValueExpr); ok {
+					nkv++
+				}
+			}
+			if _, isMap := t.Type.(*ast.MapType); isMap && nkv >= 2 {
+				out = append(out, site{node: t})
+			}
+		}
+		return true
+	})
+	return out
+}
+
+func apply3(fset *token.FileSet, file *ast.File, k, variant int) (meta, bool) {
+	ss := sites3(file)
+	if k >= len(ss) {
+		return meta{}, false
+	}
+	s := ss[k]
+	m := meta{Line: fset.Position(s.node.Pos()).Line, Before: exprString(fset, s.node)}
+	one := &ast.BasicLit{Kind: token.INT, Value: "1"}
+	switch t := s.node.(type) {
+	case *ast.ReturnStmt:
+		if variant > 0 {
+			return m, false
+		}
+		t.Results[len(t.Results)-1] = ast.NewIdent("nil")
+		m.Op = "error->nil"
+	case *ast.IfStmt:
+		if variant > 0 {
+			return m, false
+		}
+		t.Body.List = nil
+		m.Op = "empty-if-return"
+	case *ast.SliceExpr:
+		switch variant {
+		case 0:
+			if t.Low == nil {
+				t.Low = one
+			} else {
+				t.Low = &ast.BinaryExpr{X: t.Low, Op: token.ADD, Y: one}
+			}
+			m.Op = "slice-low+1"
+		case 1:
+			if t.High == nil {
+				return m, false
+			}
+			t.High = &ast.BinaryExpr{X: t.High, Op: token.SUB, Y: one}
+			m.Op = "slice-high-1"
+		default:
+			return m, false
+		}
+	case *ast.IndexExpr:
+		switch variant {
+		case 0:
+			t.Index = &ast.BinaryExpr{X: t.Index, Op: token.ADD, Y: one}
+			m.Op = "index+1"
+		default:
+			return m, false
+		}
+	case *ast.AssignStmt:
+		if variant > 0 {
+			return m, false
+		}
+		m.Op = t.Tok.String() + "->="
+		t.Tok = token.ASSIGN
+	case *ast.IncDecStmt:
+		if variant > 0 {
+			return m, false
+		}
+		if t.Tok == token.INC {
+			t.Tok, m.Op = token.DEC, "++->--"
+		} else {
+			t.Tok, m.Op = token.INC, "--->++"
+		}
+	case *ast.CaseClause:
+		if variant >= len(t.List) || variant > 2 {
+			return m, false
+		}
+		m.Op = "drop-case-value"
+		t.List = append(append([]ast.Expr(nil), t.List[:variant]...), t.List[variant+1:]...)
+	case *ast.CompositeLit:
+		var kvs []*ast.KeyValueExpr
+		for _, e := range t.Elts {
+			if kv, ok := e.(*ast.KeyValueExpr); ok {
+				kvs = append(kvs, kv)
+			}
+		}
+		// variant 0: swap values of the first two entries; 1: of the last two; 2: of the middle pair
+		var i int
+		switch variant {
+		case 0:
+			i = 0
+		case 1:
+			i = len(kvs) - 2
+			if i == 0 {
+				return m, false
+			}
+		default:
+			i = len(kvs)/2 - 1
+			if i <= 0 || i >= len(kvs)-2 {
+				return m, false
+			}
+		}
+		kvs[i].Value, kvs[i+1].Value = kvs[i+1].Value, kvs[i].Value
+		m.Op = "swap-map-values"
+		m.Before = exprString(fset, kvs[i].Key) + " / " + exprString(fset, kvs[i+1].Key)
+		m.After = "values exchanged"
+		return m, true
+	}
+	m.After = exprString(fset, s.node)
+	if len(m.After) > 200 {
+		m.After = m.After[:200]
+	}
+	if len(m.Before) > 200 {
+		m.Before = m.Before[:200]
+	}
 	return m, true
 }
